@@ -2,9 +2,10 @@
 // Needs lib/prelude.rs.
 //
 // TRUSTED:
-//  * dashu_base::SquareRootRem for DoubleWord (base/src/ring/root.rs: impl_rootrem_using_normalized!(@D@, @W@)): "(s, r)
-//    with s*s + r == n and r <= 2s" (floor square root and remainder of a machine integer; the u16/u32 kernels are
-//    proved complete by the Kani group of C12, the wider ones build on them).
+//  * (NO LONGER TRUSTED) dashu_base::SquareRootRem for DoubleWord (base/src/ring/root.rs: impl_rootrem_using_normalized!(@D@, @W@)):
+//    "(s, r) with s*s + r == n and r <= 2s" (floor square root and remainder of a machine integer) is PROVED in unit base_root
+//    (u128: Karatsuba step on the u64 routine; u64: table + Newton steps under ONE explicit assumption on the estimate, see
+//    lib/basering_root_est.rs) and imported here with //@@ SIG; the impl below only forwards to it.
 //  * dashu_base::DivRem for DoubleWord (base/src/math/div.rs macro impl): (a / b, a % b) of machine integers, b != 0.
 
 pub trait SquareRootRem: Sized {
@@ -13,13 +14,16 @@ pub trait SquareRootRem: Sized {
     fn sqrt_rem(&self) -> (r: (Self::Output, Self))
         ensures self.sqrt_rem_post(r);
 }
+// base/src/ring/root.rs `impl_rootrem_using_normalized!(@D@, @W@)` :: `SquareRootRem::sqrt_rem`: contract generated from the annotated
+// copy PROVED (unbounded) in unit base_root (hoisted free function sqrt_rem_@D@)
+//@@ SIG base/ring_root/sqrt_rem.rs variant=@D@ msubst=t:@D@,half:@W@
 impl SquareRootRem for DoubleWord {
     type Output = Word;
     open spec fn sqrt_rem_post(&self, r: (Word, DoubleWord)) -> bool {
         (r.0 as int) * (r.0 as int) + r.1 as int == *self as int && r.1 as int <= 2 * (r.0 as int)
     }
-    #[verifier::external_body]
-    fn sqrt_rem(&self) -> (r: (Word, DoubleWord)) { unimplemented!() }
+    // NOT trusted any more: forwards to the contract PROVED on the real macro body in unit base_root (//@@ SIG above)
+    fn sqrt_rem(&self) -> (r: (Word, DoubleWord)) { sqrt_rem_@D@(self) }
 }
 
 pub trait DivRem<Rhs = Self> {
